@@ -13,11 +13,15 @@ TraceSkip == SkipStep /\ UNCHANGED <<vars, cfg>>
 
 (* Known finding C25-inline-first-chunk-only (filer_server_handlers_write_upload.go, the
    "dataSize < SaveToFilerLimit || path below /etc" branch): when the first piece read from
-   the body (ck = chunk size bytes) is to be kept inline, the loop stops there: a body longer
-   than one chunk is answered 201 and only its first ck bytes are stored. *)
+   the body (ck = chunk size bytes) is to be kept inline, the loop stops there.  A body longer
+   than one chunk is answered 201 and only its first ck bytes are stored; and a body that
+   breaks off after at least ck bytes is not read that far, so its first ck bytes are stored
+   as the file too (answered 201 if the client can still hear). *)
 InlineFirstChunkOnly(p, op, s, n, fail, st, ck) ==
-  /\ op = "set" /\ fail < 0 /\ n > ck /\ (cfg.etc \/ ck < cfg.limit)
-  /\ Ok(st) /\ file' = With(p, Body(s, ck))
+  /\ op = "set" /\ (cfg.etc \/ ck < cfg.limit)
+  /\ \/ fail < 0 /\ n > ck /\ Ok(st)
+     \/ fail >= ck
+  /\ file' = With(p, Body(s, ck))
 
 TWrite == /\ IsEvent("write") /\ UNCHANGED <<nseg, hist, cfg>>
           /\ \/ Strict /\ Write(Ev.p, Ev.op, Ev.s, Ev.n, Ev.fail, Ev.st)
